@@ -1353,4 +1353,890 @@ theorem functorCall_conflict (s : Sig) (F : Functor) (n1 n2 : Named) (hB : Built
   unfold functorCall
   rw [hpo]
 
+
+
+theorem objKw_ok {vs : Bool} {s : Sig} {kws f f' : KW} (h : objKw vs s kws f = .ok f') :
+    f' = f ++ kws ∧ ∀ p ∈ kws, kget f p.1 = none := by
+  induction kws generalizing f with
+  | nil => simp only [objKw] at h; cases h; simp
+  | cons p r ih =>
+    obtain ⟨k, v⟩ := p
+    simp only [objKw] at h
+    split at h
+    · cases h
+    · rename_i hc
+      obtain ⟨h1, h2⟩ := ih h
+      refine ⟨by rw [h1]; simp, ?_⟩
+      intro q hq
+      rcases List.mem_cons.1 hq with rfl | hq
+      · simp only [Bool.or_eq_true, not_or, Bool.not_eq_true] at hc
+        exact (khas_false_iff _ _).1 hc.1
+      · have := h2 q hq
+        rw [kget_append] at this
+        cases h3 : kget f q.1 with
+        | none => rfl
+        | some w => rw [h3] at this; cases this
+
+theorem objKw_of_fresh {s : Sig} {kws f : KW} (vs : Bool) (hnd : (keys kws).Nodup)
+    (h1 : ∀ p ∈ kws, kget f p.1 = none) (h2 : ∀ p ∈ kws, s.varargs ≠ some p.1) :
+    objKw vs s kws f = .ok (f ++ kws) := by
+  induction kws generalizing f with
+  | nil => simp [objKw]
+  | cons p r ih =>
+    obtain ⟨k, v⟩ := p
+    simp only [keys, List.map_cons, List.nodup_cons] at hnd
+    have hk : khas f k = false := (khas_false_iff _ _).2 (h1 (k, v) (List.mem_cons_self ..))
+    have hv : (s.varargs == some k) = false := by
+      have := h2 (k, v) (List.mem_cons_self ..); simpa using this
+    simp only [objKw, hk, hv, Bool.and_false, Bool.or_false, Bool.false_eq_true, if_false]
+    rw [ih hnd.2]
+    · simp
+    · intro q hq
+      rw [kget_append, h1 q (List.mem_cons_of_mem _ hq)]
+      have : k ≠ q.1 := fun e => hnd.1 (e ▸ mem_keys_of_mem hq)
+      simp [kget_cons, kget_nil, this]
+    · intro q hq; exact h2 q (List.mem_cons_of_mem _ hq)
+
+/-- `withDefaults` is the result of `fill` when nothing is missing. -/
+theorem withDefaults_eq (fields : KW) (ps : List Param) :
+    withDefaults fields ps = ps.filterMap (fun p => (pval fields p).map fun v => (p.name, v)) := rfl
+
+theorem fill_eq_withDefaults {fields : KW} {ps : List Param} {r : KW} (h : fill fields ps = .ok r) :
+    withDefaults fields ps = r := by
+  induction ps generalizing r with
+  | nil => simp only [fill] at h; cases h; rfl
+  | cons p ps ih =>
+    obtain ⟨v, r', hv, hr, rfl⟩ := fill_ok_inv h
+    simp only [withDefaults, List.filterMap_cons, hv, Option.map_some]
+    have := ih hr
+    simp only [withDefaults] at this
+    rw [this]
+
+theorem fill_keys {fields : KW} {ps : List Param} {r : KW} (h : fill fields ps = .ok r) :
+    keys r = ps.map (·.name) := by
+  induction ps generalizing r with
+  | nil => simp only [fill] at h; cases h; rfl
+  | cons p ps ih =>
+    obtain ⟨v, r', _, hr, rfl⟩ := fill_ok_inv h
+    simp only [keys, List.map_cons] at *
+    rw [ih hr]
+
+theorem fill_missing_iff (m : KW) (ps : List Param) :
+    (∃ e, fill m ps = .error e) ↔ ∃ p ∈ ps, p.dflt.isNone = true ∧ khas m p.name = false := by
+  induction ps with
+  | nil => simp [fill]
+  | cons p ps ih =>
+    simp only [fill]
+    cases hg : kget m p.name with
+    | some v =>
+      have hk : khas m p.name = true := by simp [khas, hg]
+      simp only [Option.orElse_some]
+      cases hf : fill m ps with
+      | error e =>
+        have := ih.1 ⟨e, hf⟩
+        simp only [true_iff, exists_eq']
+        obtain ⟨q, hq, h⟩ := this
+        constructor
+        · intro _; exact ⟨q, List.mem_cons_of_mem _ hq, h⟩
+        · intro _; exact ⟨e, rfl⟩
+      | ok r =>
+        constructor
+        · rintro ⟨e, he⟩; cases he
+        · rintro ⟨q, hq, h1, h2⟩
+          rcases List.mem_cons.1 hq with rfl | hq
+          · rw [hk] at h2; cases h2
+          · have := ih.2 ⟨q, hq, h1, h2⟩
+            rw [hf] at this; obtain ⟨e, he⟩ := this; cases he
+    | none =>
+      have hk : khas m p.name = false := by simp [khas, hg]
+      simp only [Option.orElse_none]
+      cases hd : p.dflt with
+      | none =>
+        simp only
+        constructor
+        · intro _; exact ⟨p, List.mem_cons_self .., by simp [hd], hk⟩
+        · intro _; exact ⟨_, rfl⟩
+      | some d =>
+        simp only
+        cases hf : fill m ps with
+        | error e =>
+          obtain ⟨q, hq, h⟩ := ih.1 ⟨e, hf⟩
+          constructor
+          · intro _; exact ⟨q, List.mem_cons_of_mem _ hq, h⟩
+          · intro _; exact ⟨e, rfl⟩
+        | ok r =>
+          constructor
+          · rintro ⟨e, he⟩; cases he
+          · rintro ⟨q, hq, h1, h2⟩
+            rcases List.mem_cons.1 hq with rfl | hq
+            · rw [hd] at h1; cases h1
+            · have := ih.2 ⟨q, hq, h1, h2⟩
+              rw [hf] at this; obtain ⟨e, he⟩ := this; cases he
+
+
+theorem zip_keys_vals (r : KW) : (keys r).zip (r.map (·.2)) = r := by
+  induction r with
+  | nil => rfl
+  | cons p r ih => simp only [keys, List.map_cons, List.zip_cons_cons] at *; rw [ih]
+
+theorem split_fields {s : Sig} {c : Call} {n : Named} (h : nameArgs s c = .ok n) :
+    (s.posNames.zip c.args ++ c.kwargs).filter (fun p => s.names.contains p.1) = n.named ∧
+    (s.posNames.zip c.args ++ c.kwargs).filter (fun p => !s.names.contains p.1) = n.extra := by
+  obtain ⟨hnm, _, hnex, _, _, _⟩ := nameArgs_ok_inv h
+  constructor
+  · rw [List.filter_append, hnm]
+    congr 1
+    rw [List.filter_eq_self]
+    intro p hp
+    exact Sig.pos_sub_names s (List.of_mem_zip hp).1
+  · rw [List.filter_append, zip_filter_not_names, List.nil_append, hnex]
+
+theorem Sig.wf_varargs_not_name {s : Sig} (hwf : s.wf = true) {vn : Name} (hv : s.varargs = some vn) :
+    vn ∉ s.names := by
+  have hall := Sig.wf_nodup hwf
+  intro hmem
+  simp only [Sig.allNames, hv, Option.toList_some, List.append_assoc] at hall
+  exact (List.nodup_append.1 hall).2.2 vn hmem vn (by simp) rfl
+
+theorem Sig.wf_kw_nodup {s : Sig} (h : s.wf = true) : s.kwNames.Nodup :=
+  (List.nodup_append.1 (Sig.wf_names_nodup h)).2.1
+
+/-- Direct construction of a symbolized class, success side of the naming phase. -/
+theorem classInit_of_named (s : Sig) (hwf : s.wf = true) (c : Call) (hc : c.wf = true)
+    (hav : ∀ p ∈ c.kwargs, s.varargs ≠ some p.1) (n : Named) (hn : nameArgs s c = .ok n) :
+    classInit s c = toPyE (complete s n) := by
+  obtain ⟨hnm, hnva, hnex, hfresh, hvk, hvas⟩ := nameArgs_ok_inv hn
+  obtain ⟨hsn, hse⟩ := split_fields hn
+  have hcnd : (keys c.kwargs).Nodup := by simpa [Call.wf] using hc
+  have hpn := Sig.wf_pos_nodup hwf
+  have hnd := nameArgs_nodup hwf hc hn
+  -- (a)
+  have ha : (s.varkw.isNone && c.kwargs.any (fun p => !(s.names.contains p.1) && s.varargs != some p.1)) = false := by
+    cases hv : s.varkw with
+    | some w => rfl
+    | none =>
+      simp only [Option.isNone_none, Bool.true_and, List.any_eq_false]
+      intro p hp
+      cases hnn : s.names.contains p.1
+      · have := hvk p hp hnn; rw [hv] at this; cases this
+      · simp
+  -- (b)
+  have hb : (!c.args.isEmpty && s.pos.isEmpty && s.kwonly.isEmpty && s.varargs.isNone && s.varkw.isNone) = false := by
+    cases hargs : c.args with
+    | nil => rfl
+    | cons a r =>
+      cases hp : s.pos with
+      | cons p ps => simp
+      | nil =>
+        have : n.va ≠ [] := by rw [hnva, hp, hargs]; simp
+        have := hvas this
+        cases hv : s.varargs with
+        | none => rw [hv] at this; cases this
+        | some vn => simp
+  -- (c)
+  have hcc : (s.varargs.isNone && decide (c.args.length > s.pos.length)) = false := by
+    cases hv : s.varargs with
+    | some vn => rfl
+    | none =>
+      have : n.va = [] := by
+        cases hva : n.va with
+        | nil => rfl
+        | cons a r => have := hvas (by rw [hva]; simp); rw [hv] at this; cases this
+      rw [hnva, List.drop_eq_nil_iff] at this
+      simp; omega
+  -- (d)
+  have hd : ∀ vs, objKw vs s c.kwargs (s.posNames.zip c.args) = .ok (s.posNames.zip c.args ++ c.kwargs) := by
+    intro vs
+    apply objKw_of_fresh vs hcnd _ hav
+    intro p hp
+    cases hnn : s.names.contains p.1
+    · apply kget_zip_none
+      intro hmem; rw [Sig.pos_sub_names s hmem] at hnn; cases hnn
+    · exact hfresh p hp hnn
+  -- (f)
+  have hf : (s.posNames.zip c.args ++ c.kwargs).any (fun p => s.varargs == some p.1) = false := by
+    rw [List.any_eq_false]
+    intro p hp
+    rcases List.mem_append.1 hp with hp | hp
+    · intro h
+      have hv : s.varargs = some p.1 := by simpa using h
+      exact Sig.wf_varargs_not_name hwf hv (List.mem_append_left _ (List.of_mem_zip hp).1)
+    · intro h
+      exact hav p hp (by simpa using h)
+  have hkeq : ∀ k, s.names.contains k = true → kget (s.posNames.zip c.args ++ c.kwargs) k = kget n.named k := by
+    intro k hk
+    rw [← hsn, kget_filter (fun k => s.names.contains k), hk]; rfl
+  have hfp : fill (s.posNames.zip c.args ++ c.kwargs) s.pos = fill n.named s.pos :=
+    fill_congr (fun p hp => hkeq _ (Sig.pos_sub_names s (List.mem_map.2 ⟨p, hp, rfl⟩)))
+  have hfk : fill (s.posNames.zip c.args ++ c.kwargs) s.kwonly = fill n.named s.kwonly :=
+    fill_congr (fun p hp => hkeq _ (List.contains_iff_mem.2 (List.mem_append_right _ (List.mem_map.2 ⟨p, hp, rfl⟩))))
+  unfold classInit objectInit
+  simp only [ha, hb, hcc, hd, hf, Bool.false_eq_true, if_false]
+  by_cases hm : s.params.any (fun p => p.dflt.isNone && !khas (s.posNames.zip c.args ++ c.kwargs) p.name) = true
+  · simp only [hm, if_true]
+    -- some required parameter is missing: phase 2 fails as well
+    rw [List.any_eq_true] at hm
+    obtain ⟨p, hp, hpm⟩ := hm
+    simp only [Bool.and_eq_true, Bool.not_eq_true'] at hpm
+    simp only [Sig.params, List.mem_append] at hp
+    unfold complete
+    rcases hp with hp | hp
+    · obtain ⟨e, he⟩ := (fill_missing_iff _ s.pos).2 ⟨p, hp, hpm⟩
+      rw [← hfp, he]; rfl
+    · cases h1 : fill n.named s.pos with
+      | error e => rfl
+      | ok a =>
+        obtain ⟨e, he⟩ := (fill_missing_iff _ s.kwonly).2 ⟨p, hp, hpm⟩
+        simp only
+        rw [← hfk, he]; rfl
+  · simp only [hm, Bool.false_eq_true, if_false]
+    have hnomiss : ∀ ps, (∀ p ∈ ps, p ∈ s.params) → ∃ r, fill (s.posNames.zip c.args ++ c.kwargs) ps = .ok r := by
+      intro ps hsub
+      cases hfl : fill (s.posNames.zip c.args ++ c.kwargs) ps with
+      | ok r => exact ⟨r, rfl⟩
+      | error e =>
+        exfalso; apply hm
+        obtain ⟨p, hp, h1, h2⟩ := (fill_missing_iff _ ps).1 ⟨e, hfl⟩
+        rw [List.any_eq_true]
+        exact ⟨p, hsub p hp, by simp [h1, h2]⟩
+    obtain ⟨rp, hrp⟩ := hnomiss s.pos (fun p hp => List.mem_append_left _ hp)
+    obtain ⟨rk, hrk⟩ := hnomiss s.kwonly (fun p hp => List.mem_append_right _ hp)
+    have hkrp : keys rp = s.posNames := fill_keys hrp
+    have hkrk : keys rk = s.kwNames := fill_keys hrk
+    unfold callInitCall
+    simp only [fill_eq_withDefaults hrp, fill_eq_withDefaults hrk, hse]
+    -- the surplus positionals handed over
+    have hva' : (if (!c.args.isEmpty && s.varargs.isSome) = true then some (c.args.drop s.pos.length) else none).getD []
+        = n.va := by
+      rw [hnva]
+      cases hargs : c.args with
+      | nil => simp
+      | cons a r =>
+        cases hv : s.varargs with
+        | some vn => simp
+        | none =>
+          have : n.va = [] := by
+            cases hva : n.va with
+            | nil => rfl
+            | cons a r => have := hvas (by rw [hva]; simp); rw [hv] at this; cases this
+          rw [hnva, hargs] at this
+          simp [this]
+    rw [hva', pyCall_eq]
+    unfold pyBind
+    have hlen : (rp.map (·.2)).length = s.pos.length := by
+      rw [List.length_map, ← List.length_map (as := rp) (f := (·.1))]
+      show (keys rp).length = _
+      rw [hkrp]; simp [Sig.posNames]
+    rw [nameArgs_canon s (rp.map (·.2)) n.va (rk ++ n.extra) (by omega) (fun h => ⟨hlen, hvas h⟩)]
+    · -- named part and extras of the canonical call
+      have hrkn : ∀ p ∈ rk, s.names.contains p.1 = true := by
+        intro p hp
+        apply List.contains_iff_mem.2
+        apply List.mem_append_right
+        rw [← hkrk]; exact mem_keys_of_mem hp
+      have hexn : ∀ p ∈ n.extra, s.names.contains p.1 = false := by
+        intro p hp
+        rw [← hse, List.mem_filter] at hp
+        simpa using hp.2
+      have e1 : (rk ++ n.extra).filter (fun p => s.names.contains p.1) = rk := by
+        rw [List.filter_append, List.filter_eq_self.2 hrkn, List.filter_eq_nil_iff.2 (fun p hp => by rw [hexn p hp]; simp)]
+        simp
+      have e2 : (rk ++ n.extra).filter (fun p => !s.names.contains p.1) = n.extra := by
+        rw [List.filter_append, List.filter_eq_nil_iff.2 (fun p hp => by rw [hrkn p hp]; simp),
+          List.filter_eq_self.2 (fun p hp => by rw [hexn p hp]; rfl)]
+        simp
+      have e3 : s.posNames.zip (rp.map (·.2)) = rp := by rw [← hkrp]; exact zip_keys_vals rp
+      rw [e1, e2, e3]
+      rw [hfp] at hrp
+      rw [hfk] at hrk
+      have hpn' : (s.pos.map (·.name)).Nodup := hpn
+      have hkn' : (s.kwonly.map (·.name)).Nodup := Sig.wf_kw_nodup hwf
+      have f1 : fill (rp ++ rk) s.pos = .ok rp := fill_append_self hpn' hrp
+      have f2 : fill (rp ++ rk) s.kwonly = .ok rk := by
+        have : fill (rp ++ rk) s.kwonly = fill (rk ++ []) s.kwonly := by
+          apply fill_congr
+          intro q hq
+          have hqk : q.name ∈ s.kwNames := List.mem_map.2 ⟨q, hq, rfl⟩
+          have hqp : q.name ∉ keys rp := by rw [hkrp]; exact Sig.wf_kw_not_pos hwf hqk
+          rw [kget_append, (kget_eq_none_iff _ _).2 hqp, List.append_nil]
+        rw [this]
+        exact fill_append_self hkn' hrk
+      unfold complete
+      simp only [f1, f2, hrp, hrk]
+    · rw [keys_append, List.nodup_append]
+      refine ⟨by rw [hkrk]; exact Sig.wf_kw_nodup hwf, hnd.2, ?_⟩
+      intro a ha b hb e
+      subst e
+      obtain ⟨q, hq, hqe⟩ := exists_of_mem_keys hb
+      rw [← hse, List.mem_filter] at hq
+      have : s.names.contains a = true := List.contains_iff_mem.2 (List.mem_append_right _ (hkrk ▸ ha))
+      rw [← hqe] at this
+      rw [this] at hq
+      exact absurd hq.2 (by simp)
+    · intro p hp hnn hmem
+      rcases List.mem_append.1 hp with hp | hp
+      · have : p.1 ∈ s.kwNames := by rw [← hkrk]; exact mem_keys_of_mem hp
+        exact Sig.wf_kw_not_pos hwf this (List.mem_of_mem_take hmem)
+      · rw [← hse, List.mem_filter] at hp
+        rw [hnn] at hp
+        exact absurd hp.2 (by simp)
+    · intro p hp hnn
+      rcases List.mem_append.1 hp with hp | hp
+      · have : s.names.contains p.1 = true :=
+          List.contains_iff_mem.2 (List.mem_append_right _ (hkrk ▸ mem_keys_of_mem hp))
+        rw [hnn] at this; cases this
+      · rw [← hse, List.mem_filter] at hp
+        rcases List.mem_append.1 hp.1 with h | h
+        · have := Sig.pos_sub_names s (List.of_mem_zip h).1
+          rw [hnn] at this; cases this
+        · exact hvk p h hnn
+
+
+/-- Direct construction, error side: arguments that cannot be distributed are refused. -/
+theorem classInit_of_err (s : Sig) (c : Call) (hc : c.wf = true)
+    (hav : ∀ p ∈ c.kwargs, s.varargs ≠ some p.1) (e : BindErr) (hn : nameArgs s c = .error e) :
+    classInit s c = .error .typeError := by
+  have hcnd : (keys c.kwargs).Nodup := by simpa [Call.wf] using hc
+  unfold classInit
+  cases ho : objectInit s c with
+  | error e' => cases e'; rfl
+  | ok o =>
+    exfalso
+    unfold objectInit at ho
+    simp only at ho
+    split at ho
+    · cases ho
+    · rename_i ha
+      split at ho
+      · cases ho
+      · split at ho
+        · cases ho
+        · rename_i hcc
+          generalize hvs : (if (!c.args.isEmpty && s.varargs.isSome) = true then
+            some (c.args.drop s.pos.length) else none : Option (List V)).isSome = vs at ho
+          cases hk : objKw vs s c.kwargs (s.posNames.zip c.args) with
+          | error e' => rw [hk] at ho; cases ho
+          | ok fields =>
+            obtain ⟨_, hfr⟩ := objKw_ok hk
+            have hb := bindKw_of_fresh (s := s) (kws := c.kwargs)
+              (n := ⟨s.posNames.zip c.args, c.args.drop s.pos.length, []⟩) hcnd
+              (fun p hp _ => hfr p hp)
+              (fun p hp hnn => by
+                refine ⟨?_, rfl⟩
+                cases hv : s.varkw with
+                | some w => rfl
+                | none =>
+                  exfalso; apply ha
+                  simp only [hv, Option.isNone_none, Bool.true_and, List.any_eq_true]
+                  refine ⟨p, hp, ?_⟩
+                  have hvne : (s.varargs != some p.1) = true := by
+                    have := hav p hp; simpa using this
+                  rw [hnn, hvne]; rfl)
+            unfold nameArgs at hn
+            rw [hb] at hn
+            simp only at hn
+            split at hn
+            · rename_i h
+              apply hcc
+              simp only [Bool.and_eq_true, Bool.not_eq_true', List.isEmpty_eq_false_iff] at h
+              simp only [Bool.and_eq_true, decide_eq_true_eq]
+              refine ⟨h.2, ?_⟩
+              have := h.1
+              rw [Ne, List.drop_eq_nil_iff] at this
+              omega
+            · cases hn
+
+theorem classInit_eq (s : Sig) (hwf : s.wf = true) (c : Call) (hc : c.wf = true)
+    (hav : ∀ p ∈ c.kwargs, s.varargs ≠ some p.1) : classInit s c = pyCall s c := by
+  cases hn : nameArgs s c with
+  | error e => rw [classInit_of_err s c hc hav e hn, pyCall_of_named_err hn]
+  | ok n => rw [classInit_of_named s hwf c hc hav n hn, pyCall_of_named hn]
+
+
+
+theorem initKw_fresh {s : Sig} {vb : Bool} {kws b b' : KW} (h : initKw s vb kws b = .ok b') :
+    ∀ p ∈ kws, kget b p.1 = none := by
+  induction kws generalizing b with
+  | nil => intro p hp; cases hp
+  | cons q r ih =>
+    obtain ⟨k, v⟩ := q
+    simp only [initKw] at h
+    split at h
+    · cases h
+    · rename_i hc
+      intro p hp
+      rcases List.mem_cons.1 hp with rfl | hp
+      · simp only [Bool.or_eq_true, not_or, Bool.not_eq_true] at hc
+        exact (khas_false_iff _ _).1 hc.1
+      · have := ih h p hp
+        rw [kget_append] at this
+        cases h3 : kget b p.1 with
+        | none => rfl
+        | some w => rw [h3] at this; cases this
+
+theorem initKw_of_fresh {s : Sig} {kws b : KW} (vb : Bool) (hnd : (keys kws).Nodup)
+    (h1 : ∀ p ∈ kws, kget b p.1 = none) (h2 : ∀ p ∈ kws, s.varargs ≠ some p.1) :
+    initKw s vb kws b = .ok (b ++ kws) := by
+  induction kws generalizing b with
+  | nil => simp [initKw]
+  | cons p r ih =>
+    obtain ⟨k, v⟩ := p
+    simp only [keys, List.map_cons, List.nodup_cons] at hnd
+    have hk : khas b k = false := (khas_false_iff _ _).2 (h1 (k, v) (List.mem_cons_self ..))
+    have hv : (s.varargs == some k) = false := by
+      have := h2 (k, v) (List.mem_cons_self ..); simpa using this
+    simp only [initKw, hk, hv, Bool.and_false, Bool.or_false, Bool.false_eq_true, if_false]
+    rw [ih hnd.2]
+    · simp
+    · intro q hq
+      rw [kget_append, h1 q (List.mem_cons_of_mem _ hq)]
+      have : k ≠ q.1 := fun e => hnd.1 (e ▸ mem_keys_of_mem hq)
+      simp [kget_cons, kget_nil, this]
+    · intro q hq; exact h2 q (List.mem_cons_of_mem _ hq)
+
+/-- Arguments the language can distribute are accepted by `Functor.__init__`. -/
+theorem functorInit_of_named (s : Sig) (hwf : s.wf = true) (c : Call) (o i : Bool) (hc : c.wf = true)
+    (hav : ∀ p ∈ c.kwargs, s.varargs ≠ some p.1) (n : Named) (hn : nameArgs s c = .ok n) :
+    ∃ F, functorInit s c o i = .ok F := by
+  obtain ⟨_, hnva, _, hfresh, hvk, hvas⟩ := nameArgs_ok_inv hn
+  have hcnd : (keys c.kwargs).Nodup := by simpa [Call.wf] using hc
+  have h1 : (decide (c.args.length > s.pos.length) && s.varargs.isNone) = false := by
+    cases hv : s.varargs with
+    | some vn => simp
+    | none =>
+      have : n.va = [] := by
+        cases hva : n.va with
+        | nil => rfl
+        | cons a r => have := hvas (by rw [hva]; simp); rw [hv] at this; cases this
+      rw [hnva, List.drop_eq_nil_iff] at this
+      simp; omega
+  have hd : ∀ vb, initKw s vb c.kwargs (s.posNames.zip c.args) = .ok (s.posNames.zip c.args ++ c.kwargs) := by
+    intro vb
+    apply initKw_of_fresh vb hcnd _ hav
+    intro p hp
+    cases hnn : s.names.contains p.1
+    · apply kget_zip_none
+      intro hmem; rw [Sig.pos_sub_names s hmem] at hnn; cases hnn
+    · exact hfresh p hp hnn
+  have h2 : (s.varkw.isNone && (s.posNames.zip c.args ++ c.kwargs).any
+      (fun p => !(s.names.contains p.1) && s.varargs != some p.1)) = false := by
+    cases hv : s.varkw with
+    | some w => rfl
+    | none =>
+      simp only [Option.isNone_none, Bool.true_and, List.any_eq_false]
+      intro p hp
+      rcases List.mem_append.1 hp with hp | hp
+      · rw [Sig.pos_sub_names s (List.of_mem_zip hp).1]; simp
+      · cases hnn : s.names.contains p.1
+        · have := hvk p hp hnn; rw [hv] at this; cases this
+        · simp
+  have h3 : (s.posNames.zip c.args ++ c.kwargs).any (fun p => s.varargs == some p.1) = false := by
+    rw [List.any_eq_false]
+    intro p hp
+    rcases List.mem_append.1 hp with hp | hp
+    · intro h
+      have hv : s.varargs = some p.1 := by simpa using h
+      exact Sig.wf_varargs_not_name hwf hv (List.mem_append_left _ (List.of_mem_zip hp).1)
+    · intro h
+      exact hav p hp (by simpa using h)
+  unfold functorInit
+  simp only [h1, hd, h2, h3, Bool.false_eq_true, if_false]
+  exact ⟨_, rfl⟩
+
+/-- Arguments the language cannot distribute are refused by `Functor.__init__`. -/
+theorem functorInit_of_err (s : Sig) (c : Call) (o i : Bool) (hc : c.wf = true)
+    (hav : ∀ p ∈ c.kwargs, s.varargs ≠ some p.1) (e : BindErr) (hn : nameArgs s c = .error e) :
+    functorInit s c o i = .error .typeError := by
+  have hcnd : (keys c.kwargs).Nodup := by simpa [Call.wf] using hc
+  cases hF : functorInit s c o i with
+  | error e' => cases e'; rfl
+  | ok F =>
+    exfalso
+    unfold functorInit at hF
+    simp only at hF
+    split at hF
+    · cases hF
+    · rename_i h1
+      generalize hvb : (if c.args.length > s.pos.length then some (c.args.drop s.pos.length)
+        else none : Option (List V)).isSome = vb at hF
+      cases hk : initKw s vb c.kwargs (s.posNames.zip c.args) with
+      | error e' => rw [hk] at hF; cases hF
+      | ok bound =>
+        rw [hk] at hF
+        simp only at hF
+        have hbound := initKw_ok hk
+        have hfr := initKw_fresh hk
+        split at hF
+        · cases hF
+        · rename_i h2
+          have hb := bindKw_of_fresh (s := s) (kws := c.kwargs)
+            (n := ⟨s.posNames.zip c.args, c.args.drop s.pos.length, []⟩) hcnd
+            (fun p hp _ => hfr p hp)
+            (fun p hp hnn => by
+              refine ⟨?_, rfl⟩
+              cases hv : s.varkw with
+              | some w => rfl
+              | none =>
+                exfalso; apply h2
+                simp only [hv, Option.isNone_none, Bool.true_and, List.any_eq_true]
+                refine ⟨p, by rw [hbound]; exact List.mem_append_right _ hp, ?_⟩
+                have hvne : (s.varargs != some p.1) = true := by
+                  have := hav p hp; simpa using this
+                rw [hnn, hvne]; rfl)
+          unfold nameArgs at hn
+          rw [hb] at hn
+          simp only at hn
+          split at hn
+          · rename_i h
+            apply h1
+            simp only [Bool.and_eq_true, Bool.not_eq_true', List.isEmpty_eq_false_iff] at h
+            simp only [Bool.and_eq_true, decide_eq_true_eq]
+            refine ⟨?_, h.2⟩
+            have := h.1
+            rw [Ne, List.drop_eq_nil_iff] at this
+            omega
+          · cases hn
+
+
+
+/-- Well-formed supplied arguments. -/
+structure NamedWF (s : Sig) (n : Named) : Prop where
+  nd1 : (keys n.named).Nodup
+  in1 : ∀ k ∈ keys n.named, s.names.contains k = true
+  nd2 : (keys n.extra).Nodup
+  in2 : ∀ k ∈ keys n.extra, s.names.contains k = false
+  vk : ∀ k ∈ keys n.extra, s.varkw.isSome = true
+  va : n.va ≠ [] → s.varargs.isSome = true ∧ ∀ k ∈ s.posNames, k ∈ keys n.named
+
+theorem namedWF_of_nameArgs {s : Sig} {c : Call} {n : Named} (hwf : s.wf = true) (hc : c.wf = true)
+    (h : nameArgs s c = .ok n) : NamedWF s n := by
+  obtain ⟨hnm, hnva, hnex, _, hvk, hvas⟩ := nameArgs_ok_inv h
+  obtain ⟨h1, h2⟩ := nameArgs_nodup hwf hc h
+  refine ⟨h1, ?_, h2, ?_, ?_, ?_⟩
+  · intro k hk
+    rw [hnm, keys_append] at hk
+    rcases List.mem_append.1 hk with hk | hk
+    · rw [keys_zip] at hk; exact Sig.pos_sub_names s (List.mem_of_mem_take hk)
+    · rw [keys_filter (fun k => s.names.contains k), List.mem_filter] at hk; exact hk.2
+  · intro k hk
+    rw [hnex, keys_filter (fun k => !s.names.contains k), List.mem_filter] at hk
+    simpa using hk.2
+  · intro k hk
+    rw [hnex] at hk
+    obtain ⟨p, hp, rfl⟩ := exists_of_mem_keys hk
+    rw [List.mem_filter] at hp
+    exact hvk p hp.1 (by simpa using hp.2)
+  · intro hne
+    refine ⟨hvas hne, ?_⟩
+    intro k hk
+    rw [hnm, keys_append, keys_zip]
+    apply List.mem_append_left
+    have : s.posNames.length ≤ c.args.length := by
+      rw [hnva] at hne
+      have : ¬ c.args.length ≤ s.pos.length := fun h => hne (List.drop_eq_nil_iff.2 h)
+      simp [Sig.posNames]; omega
+    rw [List.take_of_length_le this]; exact hk
+
+theorem namedWF_merge {s : Sig} {n1 n2 : Named} (h1 : NamedWF s n1) (h2 : NamedWF s n2) :
+    NamedWF s (mergeNamed n1 n2) := by
+  refine ⟨nodup_keys_mergeKw _ _ h1.nd1, ?_, nodup_keys_mergeKw _ _ h1.nd2, ?_, ?_, ?_⟩
+  · intro k hk
+    rcases (mem_keys_mergeKw _ _ _).1 hk with h | h
+    · exact h1.in1 k h
+    · exact h2.in1 k h
+  · intro k hk
+    rcases (mem_keys_mergeKw _ _ _).1 hk with h | h
+    · exact h1.in2 k h
+    · exact h2.in2 k h
+  · intro k hk
+    rcases (mem_keys_mergeKw _ _ _).1 hk with h | h
+    · exact h1.vk k h
+    · exact h2.vk k h
+  · intro hne
+    simp only [mergeNamed] at hne ⊢
+    split at hne
+    · obtain ⟨a, b⟩ := h1.va hne
+      exact ⟨a, fun k hk => (mem_keys_mergeKw _ _ _).2 (Or.inl (b k hk))⟩
+    · obtain ⟨a, b⟩ := h2.va hne
+      exact ⟨a, fun k hk => (mem_keys_mergeKw _ _ _).2 (Or.inr (b k hk))⟩
+
+theorem kget_zip_filterMap (m : KW) (ps : List Param) (hnd : (ps.map (·.name)).Nodup)
+    (hall : ∀ p ∈ ps, (kget m p.name).isSome = true) :
+    (ps.filterMap (fun p => kget m p.name)).length = ps.length ∧
+    ∀ k ∈ ps.map (·.name), kget ((ps.map (·.name)).zip (ps.filterMap (fun p => kget m p.name))) k = kget m k := by
+  induction ps with
+  | nil => simp
+  | cons p ps ih =>
+    simp only [List.map_cons, List.nodup_cons] at hnd
+    have hp := hall p (List.mem_cons_self ..)
+    obtain ⟨ihl, ihk⟩ := ih hnd.2 (fun q hq => hall q (List.mem_cons_of_mem _ hq))
+    cases hv : kget m p.name with
+    | none => rw [hv] at hp; cases hp
+    | some v =>
+      simp only [List.filterMap_cons, hv, List.length_cons, ihl, List.map_cons, List.zip_cons_cons, true_and]
+      intro k hk
+      rw [kget_cons]
+      by_cases e : p.name = k
+      · subst e; simp [hv]
+      · simp only [e, if_false]
+        rcases List.mem_cons.1 hk with h | h
+        · exact absurd h.symm e
+        · exact ihk k h
+
+/-- A direct call that supplies exactly the arguments `n` binds like phase 2 applied to `n`. -/
+theorem pyCall_toCall (s : Sig) (hwf : s.wf = true) (n : Named) (h : NamedWF s n) :
+    pyCall s (toCall s n) = toPyE (complete s n) := by
+  have hpn := Sig.wf_pos_nodup hwf
+  rw [pyCall_eq]
+  unfold pyBind toCall
+  cases hva : n.va with
+  | nil =>
+    simp only [List.isEmpty_nil, if_true]
+    have hnd : (keys (n.named ++ n.extra)).Nodup := by
+      rw [keys_append, List.nodup_append]
+      refine ⟨h.nd1, h.nd2, ?_⟩
+      intro a ha b hb e; subst e
+      have := h.in1 a ha; rw [h.in2 a hb] at this; cases this
+    have := nameArgs_canon s [] [] (n.named ++ n.extra) (by simp) (fun hh => absurd rfl hh) hnd
+      (fun p _ _ hm => by simp at hm)
+      (fun p hp hnn => by
+        rcases List.mem_append.1 hp with hp | hp
+        · have := h.in1 _ (mem_keys_of_mem hp); rw [hnn] at this; cases this
+        · exact h.vk _ (mem_keys_of_mem hp))
+    simp only [List.append_nil, List.zip_nil_right, List.nil_append] at this
+    rw [this]
+    have e1 : (n.named ++ n.extra).filter (fun p => s.names.contains p.1) = n.named := by
+      rw [List.filter_append, List.filter_eq_self.2 (fun p hp => h.in1 _ (mem_keys_of_mem hp)),
+        List.filter_eq_nil_iff.2 (fun p hp => by rw [h.in2 _ (mem_keys_of_mem hp)]; simp)]
+      simp
+    have e2 : (n.named ++ n.extra).filter (fun p => !s.names.contains p.1) = n.extra := by
+      rw [List.filter_append, List.filter_eq_nil_iff.2 (fun p hp => by rw [h.in1 _ (mem_keys_of_mem hp)]; simp),
+        List.filter_eq_self.2 (fun p hp => by rw [h.in2 _ (mem_keys_of_mem hp)]; rfl)]
+      simp
+    simp only [e1, e2]
+    congr 1
+    cases n; simp only at hva; subst hva; rfl
+  | cons a r =>
+    simp only [List.isEmpty_cons, Bool.false_eq_true, if_false]
+    have hne : n.va ≠ [] := by rw [hva]; simp
+    obtain ⟨hvs, hallp⟩ := h.va hne
+    have hall : ∀ p ∈ s.pos, (kget n.named p.name).isSome = true := by
+      intro p hp
+      have := hallp p.name (List.mem_map.2 ⟨p, hp, rfl⟩)
+      exact (khas_iff _ _).2 this
+    obtain ⟨hlen, hkz⟩ := kget_zip_filterMap n.named s.pos hpn hall
+    have hkw2 : ∀ p ∈ n.named.filter (fun p => !(s.posNames.contains p.1)) ++ n.extra, s.names.contains p.1 = true →
+        p.1 ∉ s.posNames := by
+      intro p hp hnn hm
+      rcases List.mem_append.1 hp with hp | hp
+      · rw [List.mem_filter] at hp
+        rw [List.contains_iff_mem.2 hm] at hp; simp at hp
+      · have := h.in2 _ (mem_keys_of_mem hp); rw [hnn] at this; cases this
+    rw [← hva]
+    rw [nameArgs_canon s _ n.va _ (by omega) (fun _ => ⟨hlen, hvs⟩)]
+    · apply congrArg
+      apply complete_congr
+      · intro k hk
+        simp only
+        have hkc : s.names.contains k = true := List.contains_iff_mem.2 hk
+        rw [kget_append]
+        by_cases hkp : k ∈ s.posNames
+        · have := hkz k hkp
+          have e : s.posNames.zip (s.pos.filterMap fun p => kget n.named p.name)
+              = (s.pos.map (·.name)).zip (s.pos.filterMap fun p => kget n.named p.name) := rfl
+          rw [e, this]
+          have hs := hallp k hkp
+          cases hg : kget n.named k with
+          | none => exact absurd hs ((kget_eq_none_iff _ _).1 hg)
+          | some v => rfl
+        · rw [kget_zip_none _ _ _ hkp]
+          simp only
+          rw [kget_filter (fun k => s.names.contains k), hkc]
+          simp only [if_true]
+          rw [kget_append, kget_filter (fun k => !(s.posNames.contains k)), contains_false_iff.2 hkp]
+          simp only [Bool.not_false, if_true]
+          cases hg : kget n.named k with
+          | some v => rfl
+          | none =>
+            simp only
+            rw [kget_eq_none_iff]
+            intro hm
+            have := h.in2 _ hm; rw [hkc] at this; cases this
+      · rfl
+      · simp only
+        rw [List.filter_append, List.filter_eq_nil_iff.2, List.filter_eq_self.2]
+        · simp
+        · intro p hp; rw [h.in2 _ (mem_keys_of_mem hp)]; rfl
+        · intro p hp
+          rw [List.mem_filter] at hp
+          rw [h.in1 _ (mem_keys_of_mem hp.1)]; simp
+    · rw [keys_append, List.nodup_append]
+      refine ⟨?_, h.nd2, ?_⟩
+      · rw [keys_filter (fun k => !(s.posNames.contains k))]
+        exact List.Nodup.sublist List.filter_sublist h.nd1
+      · intro a ha b hb e; subst e
+        rw [keys_filter (fun k => !(s.posNames.contains k)), List.mem_filter] at ha
+        have := h.in1 a ha.1; rw [h.in2 a hb] at this; cases this
+    · intro p hp hnn hm
+      exact hkw2 p hp hnn (List.mem_of_mem_take hm)
+    · intro p hp hnn
+      rcases List.mem_append.1 hp with hp | hp
+      · rw [List.mem_filter] at hp
+        have := h.in1 _ (mem_keys_of_mem hp.1); rw [hnn] at this; cases this
+      · exact h.vk _ (mem_keys_of_mem hp)
+
+
+
+theorem bool_eq_of_iff {a b : Bool} (h : a = true ↔ b = true) : a = b := by
+  cases a <;> cases b <;> simp_all
+
+theorem kwAble_contains (npo : Nat) (s : Sig) (k : Name) (hk : (s.posNames.take npo).contains k = false) :
+    (kwAble npo s).contains k = s.names.contains k := by
+  apply bool_eq_of_iff
+  rw [List.contains_iff_mem, List.contains_iff_mem]
+  have hk' : k ∉ s.posNames.take npo := contains_false_iff.1 hk
+  unfold kwAble Sig.names
+  constructor
+  · intro h
+    rcases List.mem_append.1 h with h | h
+    · exact List.mem_append_left _ (List.mem_of_mem_drop h)
+    · exact List.mem_append_right _ h
+  · intro h
+    rcases List.mem_append.1 h with h | h
+    · rw [← List.take_append_drop npo s.posNames] at h
+      rcases List.mem_append.1 h with h | h
+      · exact absurd h hk'
+      · exact List.mem_append_left _ h
+    · exact List.mem_append_right _ h
+
+theorem bindKwPO_eq (npo : Nat) (s : Sig) (all kws : KW) (n : Named)
+    (hall : all.any (fun p => (s.posNames.take npo).contains p.1) = false)
+    (h : ∀ p ∈ kws, (s.posNames.take npo).contains p.1 = false) :
+    bindKwPO npo s all kws n = bindKw s kws n := by
+  induction kws generalizing n with
+  | nil => rfl
+  | cons p r ih =>
+    obtain ⟨k, v⟩ := p
+    have hk := h (k, v) (List.mem_cons_self ..)
+    have ihr := fun n' => ih n' (fun q hq => h q (List.mem_cons_of_mem _ hq))
+    simp only [bindKwPO, bindKw, kwAble_contains npo s k hk, hall, ihr, Bool.false_eq_true, if_false]
+
+/-- Calls that do not name a positional-only parameter by keyword bind as if there were none. -/
+theorem pyCallPO_eq (npo : Nat) (s : Sig) (c : Call)
+    (h : ∀ p ∈ c.kwargs, (s.posNames.take npo).contains p.1 = false) :
+    pyCallPO npo s c = pyCall s c := by
+  have hall : c.kwargs.any (fun p => (s.posNames.take npo).contains p.1) = false := by
+    rw [List.any_eq_false]; intro p hp; rw [h p hp]; simp
+  unfold pyCallPO pyCall pyBindPO pyBind nameArgsPO nameArgs
+  rw [bindKwPO_eq npo s c.kwargs c.kwargs _ hall h]
+
+
+
+theorem kget_withDefaults (f : KW) (ps : List Param) (hnd : (ps.map (·.name)).Nodup) :
+    (∀ p ∈ ps, kget (withDefaults f ps) p.name = pval f p) ∧
+    (∀ k, k ∉ ps.map (·.name) → kget (withDefaults f ps) k = none) := by
+  induction ps with
+  | nil => simp [withDefaults, kget]
+  | cons p ps ih =>
+    simp only [List.map_cons, List.nodup_cons] at hnd
+    obtain ⟨ih1, ih2⟩ := ih hnd.2
+    have hunf : withDefaults f (p :: ps) =
+        (match pval f p with | some v => [(p.name, v)] | none => []) ++ withDefaults f ps := by
+      simp only [withDefaults, List.filterMap_cons, pval]
+      cases (kget f p.name).orElse (fun _ => p.dflt) <;> simp
+    constructor
+    · intro q hq
+      rw [hunf, kget_append]
+      rcases List.mem_cons.1 hq with rfl | hq
+      · cases hv : pval f q with
+        | some v => simp only [kget_cons, if_true]
+        | none => simp only [kget_nil]; exact ih2 _ hnd.1
+      · have hne : p.name ≠ q.name := fun e => hnd.1 (e ▸ List.mem_map.2 ⟨q, hq, rfl⟩)
+        cases hv : pval f p with
+        | some v => simp only [kget_cons, hne, if_false, kget_nil]; exact ih1 q hq
+        | none => simp only [kget_nil]; exact ih1 q hq
+    · intro k hk
+      simp only [List.map_cons, List.mem_cons, not_or] at hk
+      rw [hunf, kget_append]
+      cases hv : pval f p with
+      | some v =>
+        have : p.name ≠ k := fun e => hk.1 e.symm
+        simp only [kget_cons, this, if_false, kget_nil]; exact ih2 k hk.2
+      | none => simp only [kget_nil]; exact ih2 k hk.2
+
+theorem keys_withDefaults_sub (f : KW) (ps : List Param) : ∀ k ∈ keys (withDefaults f ps), k ∈ ps.map (·.name) := by
+  intro k hk
+  obtain ⟨q, hq, rfl⟩ := exists_of_mem_keys hk
+  simp only [withDefaults, List.mem_filterMap] at hq
+  obtain ⟨p, hp, hpq⟩ := hq
+  cases hv : (kget f p.name).orElse (fun _ => p.dflt) with
+  | none => rw [hv] at hpq; cases hpq
+  | some v => rw [hv] at hpq; cases hpq; exact List.mem_map.2 ⟨p, hp, rfl⟩
+
+theorem reportOne_pval (f : KW) (p : Param) (g : Name → Option V) (h : g p.name = pval f p) :
+    reportOne g p = reportOne (kget f) p := by
+  unfold reportOne
+  rw [h]
+  unfold pval
+  cases kget f p.name <;> cases p.dflt <;> rfl
+
+/-- The arguments reported after a JSON round trip are the arguments reported before. -/
+theorem symInitArgs_json (s : Sig) (hwf : s.wf = true) (F : Functor) (hsig : F.sig = s)
+    (hva : F.va.isSome = true → s.varargs.isSome = true) :
+    symInitArgs F.jsonRoundTrip = symInitArgs F := by
+  have hpn : (s.pos.map (·.name)).Nodup := Sig.wf_pos_nodup hwf
+  have hkn : (s.kwonly.map (·.name)).Nodup := Sig.wf_kw_nodup hwf
+  obtain ⟨hp1, hp2⟩ := kget_withDefaults F.bound s.pos hpn
+  obtain ⟨hk1, hk2⟩ := kget_withDefaults F.bound s.kwonly hkn
+  have hex : ∀ k, s.names.contains k = true →
+      kget (F.bound.filter (fun p => !(s.names.contains p.1))) k = none := by
+    intro k hk; rw [kget_filter (fun k => !(s.names.contains k)), hk]; rfl
+  have hget : ∀ p ∈ s.params, kget (withDefaults F.bound s.pos ++ withDefaults F.bound s.kwonly
+      ++ F.bound.filter (fun p => !(s.names.contains p.1))) p.name = pval F.bound p := by
+    intro p hp
+    rw [List.append_assoc, kget_append]
+    rcases List.mem_append.1 hp with hp | hp
+    · rw [hp1 p hp]
+      cases hv : pval F.bound p with
+      | some v => rfl
+      | none =>
+        simp only
+        have hpk : p.name ∉ s.kwonly.map (·.name) := by
+          intro h; exact Sig.wf_kw_not_pos hwf h (List.mem_map.2 ⟨p, hp, rfl⟩)
+        rw [kget_append, hk2 _ hpk]
+        exact hex _ (Sig.pos_sub_names s (List.mem_map.2 ⟨p, hp, rfl⟩))
+    · have hpp : p.name ∉ s.pos.map (·.name) :=
+        Sig.wf_kw_not_pos hwf (List.mem_map.2 ⟨p, hp, rfl⟩)
+      rw [hp2 _ hpp]
+      simp only
+      rw [kget_append, hk1 p hp]
+      cases hv : pval F.bound p with
+      | some v => rfl
+      | none =>
+        exact hex _ (List.contains_iff_mem.2 (List.mem_append_right _ (List.mem_map.2 ⟨p, hp, rfl⟩)))
+  have hfil : (withDefaults F.bound s.pos ++ withDefaults F.bound s.kwonly
+      ++ F.bound.filter (fun p => !(s.names.contains p.1))).filter (fun p => !(s.names.contains p.1))
+      = F.bound.filter (fun p => !(s.names.contains p.1)) := by
+    rw [List.filter_append, List.filter_append, List.filter_filter]
+    rw [List.filter_eq_nil_iff.2, List.filter_eq_nil_iff.2]
+    · simp
+    · intro q hq
+      have := keys_withDefaults_sub _ _ _ (mem_keys_of_mem hq)
+      have hc : s.names.contains q.1 = true := List.contains_iff_mem.2 (List.mem_append_right _ this)
+      rw [hc]; simp
+    · intro q hq
+      have := keys_withDefaults_sub _ _ _ (mem_keys_of_mem hq)
+      rw [Sig.pos_sub_names s this]; simp
+  have hvaeq : (s.varargs.map (fun _ => F.va.getD [])).getD [] = F.va.getD [] := by
+    cases hv : s.varargs with
+    | some vn => rfl
+    | none =>
+      cases hf : F.va with
+      | none => rfl
+      | some xs => have := hva (by rw [hf]; rfl); rw [hv] at this; cases this
+  unfold symInitArgs Functor.jsonRoundTrip reportArgs reportWith
+  simp only [hsig, hfil, hvaeq]
+  rw [List.map_congr_left (fun p hp => reportOne_pval F.bound p _ (hget p (List.mem_append_left _ hp))),
+      List.map_congr_left (fun p hp => reportOne_pval F.bound p _ (hget p (List.mem_append_right _ hp)))]
+
 end Pg.C18
